@@ -344,7 +344,9 @@ def valid_part(ctx, rnd, quick):
         F.c09_family("quick", rnd) + F.c10_family("quick", rnd) + F.c01_extras("quick", rnd) + F.c04_family("quick", rnd)
     progs = [p for p in progs if not any(ev.get("x") == "bad" for ev in _exprs(p))]
     if quick:
-        progs = rnd.sample(progs, min(len(progs), 400))
+        # (the few programs that nest statements in unusual but legal ways are always there)
+        keep = [p for p in progs if ":cases:" in p.get("fam", "")]
+        progs = keep + rnd.sample(progs, min(len(progs), 400))
     perms = (0, 1, 101, 201, 301, 3) if quick else (0, 1, 2, 3, 101, 103, 201, 203, 301, 303)
     chunks = [(progs[i::16], perms) for i in range(16)]
     with multiprocessing.get_context("fork").Pool(16) as pool:
